@@ -188,8 +188,10 @@ def c_set_state(lib, mt, d, st):
         d.mocap_quat[:] = st["mocap_quat"]
 
 
-def c_forward_step(lib, mt, d, st):
-    """mj_forward and (from the same state) mj_step on the tree-built library -> dict of copies."""
+def c_forward_step(lib, mt, d, st, qacc_x=None):
+    """mj_forward and (from the same state) mj_step on the tree-built library -> dict of copies.
+    If qacc_x is given and constraints are present, also evaluates the C engine's constraint force at that
+    acceleration (mj_constraintUpdate), which yields an optimality certificate for qacc_x on the C problem."""
     nv = mt.nv
     c_set_state(lib, mt, d, st)
     lib.mj_forward(mt, d)
@@ -216,6 +218,16 @@ def c_forward_step(lib, mt, d, st):
     r["contact"] = con
     r["solver_niter"] = int(np.array(d.solver_niter)[0])
     r["warn"] = lib.warning_count()
+    if nefc and qacc_x is not None and np.all(np.isfinite(qacc_x)):
+        jar = np.zeros(nefc)
+        lib.mj_mulJacVec(mt, d, jar, np.ascontiguousarray(qacc_x, dtype=float))
+        jar -= np.array(d.efc_aref, float)[:nefc]
+        cost = np.zeros(1)
+        lib.mj_constraintUpdate(mt, d, jar, cost, 0)
+        fx = np.array(d.efc_force, float)[:nefc].copy()
+        qfc = np.zeros(nv)
+        lib.mj_mulJacTVec(mt, d, qfc, fx)
+        r["qfc_at_x"] = qfc
     # step from the same state
     c_set_state(lib, mt, d, st)
     lib.mj_step(mt, d)
@@ -264,6 +276,7 @@ def make_eval(J, mx, dx0, use_step=True):
         for k in X_IMPL:
             out[k] = getattr(df._impl, k)
         out["M"] = J.support.full_m(mx, df)
+        out["solver_niter"] = df._impl.solver_niter
         c = df._impl.contact
         for k in X_CONTACT:
             out["contact_" + k] = getattr(c, k)
